@@ -28,6 +28,7 @@ class PipelineMonitor:
     def __init__(self, ctx, fl):
         self.ctx, self.fl = ctx, fl
         self.oracle = W.Oracle(fl)
+        self.declared = {}  # id(engine) -> {output variable name: defuzzifier as the workload configured it}
 
     def install(self, probe):
         fl = self.fl
@@ -206,7 +207,7 @@ class PipelineMonitor:
                     ctx.violation("a disabled output variable changed its value", dict(case, variable=ov.name), before_value, ov.value)
                 continue
             try:
-                raw = self.oracle.defuzzified(ov, contrib[ov.name])
+                raw = self.oracle.defuzzified(ov, contrib[ov.name], self.declared.get(id(engine), {}).get(ov.name))
             except Exception as ex:
                 ctx.hit(f"out_of_domain:oracle defuzzification raises {type(ex).__name__}")
                 continue
@@ -309,6 +310,8 @@ def run(ctx):
             except Exception as ex:
                 ctx.hit(f"inconclusive:generated engine does not build: {type(ex).__name__}: {str(ex)[:80]}")
                 continue
+            shared = spec.get("shared_defuzzifier")
+            mon.declared = {id(engine): {o["name"]: (dict(cls=shared, type="Automatic") if (shared and o["defuzzifier"] and "type" in o["defuzzifier"]) else o["defuzzifier"]) for o in spec["outputs"]}}
             rows = E.rows(rnd, spec, nrows)
             k = 0
             last_size = 0
